@@ -2,7 +2,7 @@
 //! under the right key, unaltered, with the right scheme.
 use crate::c04::{keyid_hex, Entry};
 use crate::meta::{gen_layout, gen_link, key_pool_all_sizes, KeyInfo};
-use crate::proto::{guarded, hex, Sink};
+use crate::proto::{unhex, guarded, hex, Sink};
 use crate::rng::Rng;
 use crate::Cfg;
 use in_toto::crypto::PublicKey;
@@ -194,6 +194,41 @@ pub fn run(cfg: &Cfg) {
                         let accepted = blk.verify(1, [owner.public()]).is_ok();
                         sink.oracle(!accepted, "a signature still verifies after a single-bit change", &format!("{} bit={}", replay, bit));
                         sink.stat("negatives/bitflip");
+                    }
+                }
+                // (d) the whole block, every signer's key asked for (threshold = number of signers): with one of
+                //     the keys replaced by a key that did not sign, or with one of the signatures changed in one
+                //     bit, not every key asked for has a valid signature - whichever position is concerned
+                if parsed.signatures.len() >= 2 {
+                    for pos in [0usize, parsed.signatures.len() - 1, r.below(parsed.signatures.len())] {
+                        let stranger = pool.iter().find(|k| !signers.iter().any(|s| s.pk8 == k.pk8));
+                        if let Some(st) = stranger {
+                            let mut keys = pubs.clone();
+                            keys[pos] = st.public().clone();
+                            let (p3, n) = (parsed.clone(), keys.len() as u32);
+                            let accepted = guarded(move || p3.verify(n, keys.iter()).is_ok());
+                            sink.oracle(accepted == Ok(false), "a block verifies with as many keys as signers although one of the keys asked for did not sign", &format!("{} replaced-key-position={}", replay, pos));
+                        }
+                        let mut j = serde_json::to_value(&parsed).unwrap();
+                        let id_at = serde_json::to_value(pubs[pos].key_id()).unwrap();
+                        if let Some(arr) = j["signatures"].as_array_mut() {
+                            for e in arr.iter_mut() {
+                                if e["keyid"] == id_at {
+                                    let mut b = unhex(e["sig"].as_str().unwrap_or("")).unwrap_or_default();
+                                    if !b.is_empty() {
+                                        let bit = r.below(b.len() * 8);
+                                        b[bit / 8] ^= 1 << (bit % 8);
+                                        e["sig"] = serde_json::json!(hex(&b));
+                                    }
+                                }
+                            }
+                        }
+                        if let Ok(p4) = serde_json::from_value::<Metablock>(j) {
+                            let (keys, n) = (pubs.clone(), pubs.len() as u32);
+                            let accepted = guarded(move || p4.verify(n, keys.iter()).is_ok());
+                            sink.oracle(accepted == Ok(false), "a block verifies with as many keys as signers although one of the signatures was changed in one bit", &format!("{} changed-signature-position={}", replay, pos));
+                        }
+                        sink.stat("negatives/whole-block");
                     }
                 }
                 // (c) the untouched signature alone does verify under its own key
